@@ -44,9 +44,37 @@ def index_run(ctx):
         ctx.exhaustive.append("zernIndex: every Noll index 1..%d (split over %d shards)" % (jmax, ctx.nshards))
 
 
+def boundary_run(ctx):
+    """Row boundaries are where a closed-form index inversion goes wrong first (a square root rounded to the wrong side of
+    an integer): every boundary n(n+1)/2 + {-1, 0, 1, 2} of every row up to j = 1e8 (quick) / 1e9 (thorough)."""
+    z, _ = Z()
+    jmax = 10**8 if ctx.tier == "quick" else 10**9
+    nmax = (math.isqrt(8 * jmax + 1) - 1) // 2
+    zi = z.zernIndex
+    cnt = 0
+    for n in range(1 + ctx.shard, nmax, ctx.nshards):
+        t = n * (n + 1) // 2
+        for j in (t - 1, t, t + 1, t + 2):
+            if j < 1:
+                continue
+            r = zi(j)
+            want = noll.noll_single(j)
+            cnt += 1
+            if r[0] != want[0] or r[1] != want[1]:
+                raise Failure({"j": j}, Violation("zernIndex(%d) = %r, Noll's ordering gives [%d, %d]" % (j, list(r), want[0], want[1])), None)
+    ctx.bulk(cnt, cnt, sample={"j": t, "n": n}, exhaustive=None)
+    if ctx.shard == 0:
+        ctx.exhaustive.append("zernIndex: the four indices around every row boundary n(n+1)/2 for all rows with j <= %d" % jmax)
+
+
 def index_replay(ctx, case):
     z, _ = Z()
     j = case["j"]
+    if j > 2 * 10**7:
+        want = noll.noll_single(j)
+        r = z.zernIndex(j)
+        ctx.require(r[0] == want[0] and r[1] == want[1], "zernIndex(%d) = %r, Noll's ordering gives [%d, %d]" % (j, list(r), want[0], want[1]))
+        return
     n_arr, m_arr = noll.noll_table(j)
     r = z.zernIndex(j)
     ctx.require(r[0] == n_arr[j] and r[1] == m_arr[j], "zernIndex(%d) = %r, Noll's ordering gives [%d, %d]" % (j, list(r), n_arr[j], m_arr[j]))
@@ -241,6 +269,7 @@ LAWS = [
     plain_law("high_orders", high_order_cases, high_order_body, shards={"quick": 4, "thorough": 8}),
     given_law("modes_xl", mode_cases(320, 20), mode_body, {"quick": 0, "thorough": 40}, shards={"quick": 1, "thorough": 16}),
     Law("noll_index", index_run, replay=index_replay, shards={"quick": 16, "thorough": 16}),
+    Law("noll_row_boundaries", boundary_run, replay=index_replay, shards={"quick": 4, "thorough": 16}),
     given_law("modes", mode_cases(), mode_body, {"quick": 250, "thorough": 3750}, shards={"quick": 3, "thorough": 16}),
     plain_law("gram_ladder", gram_cases, gram_body, shards={"quick": 2, "thorough": 2}),
     plain_law("gradients", gamma_cases, gamma_body, shards={"quick": 5, "thorough": 7}),
